@@ -146,7 +146,10 @@ class _STIXBase(collections.abc.Mapping):
         registered_toplevel_extension_props = {}
         has_unregistered_toplevel_extension = False
         # Note: "extensions" hasn't been validated yet; it may be anything.
-        if isinstance(extensions, collections.abc.Mapping):
+        # STIX 2.0 has no extension definitions: there such an entry does not
+        # excuse extra properties.
+        if isinstance(extensions, collections.abc.Mapping) \
+                and not isinstance(self, stix2.v20._STIXBase20):
             for ext_id, ext in extensions.items():
                 if (
                     isinstance(ext, collections.abc.Mapping) and
